@@ -676,5 +676,10 @@ class MQTTProtocol(MQTTBaseProtocol):
         # Then, invoke errbacks anyway if we do not persist state
         if self._cleanStart:
             self._purgeSession(reason)
+            # held-back messages are not carried over either
+            while len(self.factory.queuePublishTx[self.addr]):
+                request = self.factory.queuePublishTx[self.addr].popleft()
+                if request.msgId:   # QoS 0 Deferreds have fired already
+                    request.deferred.errback(reason)
 
 __all__ = [ "MQTTProtocol" ]
